@@ -2,7 +2,7 @@
    Extracted to OCaml (ocaml/main.ml feeds it one line at a time) and also evaluated
    inside Coq with vm_compute for the extraction cross-check. *)
 From Coq Require Import List String.
-From RashV Require Import Sexp StateCase.
+From RashV Require Import Sexp StateCase UsageCase EngineCase.
 Import ListNotations.
 Open Scope string_scope.
 
@@ -12,6 +12,11 @@ Definition dispatch (e : sexp) : option sexp :=
   | SList (Atom "declared" :: _) => run_declared e
   | SList (Atom "pacman" :: _) => run_pacman e
   | SList (Atom "octal" :: _) => run_octal e
+  | SList (Atom "docopt" :: _) => run_docopt e
+  | SList (Atom "docoptm" :: _) => run_docoptm e
+  | SList (Atom "matchtoks" :: _) => run_matchtoks e
+  | SList (Atom "canon" :: _) => run_canon e
+  | SList (Atom "engine" :: _) => run_engine e
   | _ => None
   end.
 
